@@ -28,11 +28,20 @@ V("c03-f1-revert", "C03", "fire", UT, "    A = (A != 0).astype(int)\n    # Check
   rule="PAT", what="revert fix F1: sums of signed weights decide acyclicity")
 V("c03-sum-in-kahn", "C03", "fire", UT, "    A = (A != 0).astype(int)\n", "    B = (A != 0).astype(int)\n", rule="PAT",
   what="pattern computed but raw A still used")
-V("c03-precheck-upper", "C03", "fire", UT, "    if only_undirected(A).sum() > 0:\n        raise ValueError(\"The given graph is not a DAG\")",
-  "    if np.triu(only_undirected(A), k=1).sum() > 0:\n        raise ValueError(\"The given graph is not a DAG\")", rule="PRECHECK",
-  what="pre-check skips the diagonal (self-loops pass to Kahn's loop)", accept_inconclusive=True)
-V("c03-precheck-directed", "C03", "fire", UT, "    if only_undirected(A).sum() > 0:\n        raise ValueError(\"The given graph is not a DAG\")",
-  "    if only_directed(A).sum() < 0:\n        raise ValueError(\"The given graph is not a DAG\")", rule="PRECHECK", what="pre-check tests the wrong mask")
+V("c03-silent-precheck-upper", "C03", "silent", UT, "    if only_undirected(A).sum() > 0:\n        raise ValueError(\"The given graph is not a DAG\")",
+  "    if np.triu(only_undirected(A), k=1).sum() > 0:\n        raise ValueError(\"The given graph is not a DAG\")",
+  what="pre-check skips the diagonal, but self-loop entries survive to the entries-left test: still exact")
+V("c03-silent-no-precheck", "C03", "silent", UT, "    if only_undirected(A).sum() > 0:\n        raise ValueError(\"The given graph is not a DAG\")\n", "",
+  what="no pre-check at all: two-cycles and self-loops are never removed by Kahn's loop and are caught by the entries-left test")
+V("c03-count-leftover-selfloops", "C03", "fire", UT, "    if only_undirected(A).sum() > 0:\n        raise ValueError(\"The given graph is not a DAG\")",
+  "    if len(undirected_edges(A)) > 0:\n        raise ValueError(\"The given graph is not a DAG\")", rule="CYCLES.self-loop",
+  more=[(UT, "    if A.sum() > 0:\n        raise ValueError(\"The given graph is not a DAG\")\n    else:\n        return ordering", "    if len(ordering) < len(A):\n        raise ValueError(\"The given graph is not a DAG\")\n    else:\n        return ordering")],
+  what="two harmless-looking refactors together accept self-loops on non-root nodes")
+V("c03-silent-count-leftover", "C03", "silent", UT, "    if A.sum() > 0:\n        raise ValueError(\"The given graph is not a DAG\")\n    else:\n        return ordering", "    if len(ordering) < len(A):\n        raise ValueError(\"The given graph is not a DAG\")\n    else:\n        return ordering",
+  what="textbook Kahn termination test; the pre-check still covers self-loops and two-cycles")
+V("c03-count-leftover-no-precheck", "C03", "fire", UT, "    if only_undirected(A).sum() > 0:\n        raise ValueError(\"The given graph is not a DAG\")\n", "", rule="CYCLES",
+  more=[(UT, "    if A.sum() > 0:\n        raise ValueError(\"The given graph is not a DAG\")\n    else:\n        return ordering", "    if len(ordering) != len(A):\n        raise ValueError(\"The given graph is not a DAG\")\n    else:\n        return ordering")],
+  what="count-based final test without a pre-check: two-cycles accepted")
 V("c03-isdag-typeerror", "C03", "fire", UT, "        topological_ordering(A)\n        return True\n    except ValueError:", "        topological_ordering(A)\n        return True\n    except TypeError:",
   rule="WRAP", what="is_dag no longer handles ValueError")
 V("c03-isdag-inverted", "C03", "fire", UT, "        topological_ordering(A)\n        return True\n    except ValueError:\n        return False",
